@@ -146,6 +146,11 @@ def slot_templates():
     t.update({
         'ifBody': '({}) if z else w', 'ifTest': 'z if ({}) else w', 'ifOrelse': 'z if w else ({})', 'await': 'await ({})',
         'callFunc': '({})(z)', 'callArg': 'z(({}), w)', 'callSole': 'z(({}))', 'callKw': 'z(k=({}))', 'callStarArg': 'z(*({}))',
+        # the same slot with different siblings: what a child needs can depend on the other fields of the node
+        'callSoleKw': 'z(({}), k=w)', 'callSoleStarKw': 'z(({}), **w)', 'callSoleStar': 'z(({}), *w)', 'callArgKw': 'z(v, ({}), k=w)',
+        'callKwKw': 'z(k=w, j=({}))', 'callStarArgKw': 'z(*({}), k=w)', 'subSliceSole': 'z[({}),]', 'sliceBoth': 'z[({}):({})]',
+        'listSole': '[({})]', 'setSole': '{{({})}}', 'tupleSole': '(({}),)', 'dictTwo': '{{({}): z, w: ({})}}', 'compTwoIf': '[z for z in w if ({}) if ({})]',
+        'lambdaDefaultKw': 'lambda a, *, b=({}): a', 'lambdaArgBody': 'lambda a, b=1: ({})', 'fstringSpec': "f'{{({}):>{{z}}}}'", 'fstringConv': "f'{{({})!r}}'",
         'callStarKw': 'z(**({}))', 'attrValue': '({}).a', 'subValue': '({})[z]', 'subSlice': 'z[({})]', 'subSliceTuple': 'z[({}), w]',
         'sliceLower': 'z[({}):w]', 'sliceStep': 'z[::({})]', 'starred': '[*({}), z]', 'dictStar': '{{**({}), z: w}}',
         'dictKey': '{{({}): z}}', 'dictValue': '{{z: ({})}}', 'listElt': '[({}), z]', 'setElt': '{{({}), z}}', 'tupleElt': '(({}), z)',
